@@ -875,6 +875,38 @@ def c15_lemmas():
             with_hyp(ctx, inr + [S.z(S.truth(sel(i)))],
                      lambda: ctx.oblige('C15::Spectrum.crop.retained_samples_unaltered[%s]' % what, S.eq(val(i), x0.at((i,)))))
     out.append(('C15::crop', crop_lemma))
+
+    def pad_lemma(ctx):
+        """Spectrum.pad((lo, hi), sampling=d, values=(a, b)) with lo < min(wave), hi > max(wave), d > 0, on the real
+        code for every grid length: the old samples keep their wavelengths AND their values, shifted as one block
+        by the number of samples added on the left; every added sample carries the fill value of its side; the new
+        grid starts at lo and ends at hi; wave and value have the same length; the grid handed to the setter is
+        positive and strictly increasing."""
+        from lvc.prove import with_hyp
+        ctx.grid_validation = 'prove'
+        ctx.grid_tag = 'pad'
+        sp = mk_spectrum(ctx, 's', pairwise=True)
+        w0, v0 = sp.attrs['_wave'], sp.attrs['_value']
+        n = w0.shape[0]
+        lo, hi, d = ctx.fresh_real('lo'), ctx.fresh_real('hi'), ctx.fresh_real('sampling')
+        a, b = ctx.fresh_real('left_value'), ctx.fresh_real('right_value')
+        ctx.assume(z3.And(d > 0, lo > 0, S.z(S.lt(lo, w0.at((0,)))), S.z(S.gt(hi, w0.at((S.sub(n, 1),))))))
+        ctx.world.interp.call_function(ctx, method(ctx, sp, 'pad'), [sp, (lo, hi)], {'sampling': d, 'values': (a, b)})
+        w1, v1 = A.as_array(ctx, sp.attrs['_wave']), A.as_array(ctx, sp.attrs['_value'])
+        nl = S.ceil_(S.truediv(S.sub(w0.at((0,)), lo), d))              # samples added on the left  (= nleft - 1)
+        nr = S.ceil_(S.truediv(S.sub(hi, w0.at((S.sub(n, 1),))), d))    # samples added on the right (= nright - 1)
+        ctx.oblige('C15::Spectrum.pad.one_value_per_wavelength',
+                   z3.And(S.z(S.eq(w1.shape[0], S.add(S.add(nl, n), nr))), S.z(S.eq(v1.shape[0], S.add(S.add(nl, n), nr)))))
+        k = ctx.fresh_int('k')
+        with_hyp(ctx, [k >= 0, k < S.z(n)], lambda: ctx.oblige(
+            'C15::Spectrum.pad.retained_samples_unaltered',
+            S.and_(S.eq(w1.at((S.add(nl, k),)), w0.at((k,))), S.eq(v1.at((S.add(nl, k),)), v0.at((k,))))))
+        with_hyp(ctx, [k >= 0, k < S.z(nl)], lambda: ctx.oblige('C15::Spectrum.pad.left_samples_carry_the_left_value', S.eq(v1.at((k,)), a)))
+        with_hyp(ctx, [k >= 0, k < S.z(nr)], lambda: ctx.oblige('C15::Spectrum.pad.right_samples_carry_the_right_value',
+                                                              S.eq(v1.at((S.add(S.add(nl, n), k),)), b)))
+        ctx.oblige('C15::Spectrum.pad.grid_starts_at_lo_and_ends_at_hi',
+                   z3.And(S.z(S.eq(w1.at((0,)), lo)), S.z(S.eq(w1.at((S.sub(w1.shape[0], 1),)), hi))))
+    out.append(('C15::pad', pad_lemma))
     return out
 
 
